@@ -82,11 +82,15 @@ where
 
     #[inline]
     fn register_callsite(&self, metadata: &'static Metadata<'static>) -> Interest {
+        #[cfg(tracing_verif)]
+        tracing_core::__verif::yield_point(81);
         try_lock!(self.inner.read(), else return Interest::sometimes()).register_callsite(metadata)
     }
 
     #[inline]
     fn enabled(&self, metadata: &Metadata<'_>, ctx: subscribe::Context<'_, C>) -> bool {
+        #[cfg(tracing_verif)]
+        tracing_core::__verif::yield_point(81);
         try_lock!(self.inner.read(), else return false).enabled(metadata, ctx)
     }
 
@@ -147,6 +151,8 @@ where
 
     #[inline]
     fn max_level_hint(&self) -> Option<LevelFilter> {
+        #[cfg(tracing_verif)]
+        tracing_core::__verif::yield_point(81);
         try_lock!(self.inner.read(), else return None).max_level_hint()
     }
 
@@ -179,11 +185,15 @@ where
 {
     #[inline]
     fn callsite_enabled(&self, metadata: &'static Metadata<'static>) -> Interest {
+        #[cfg(tracing_verif)]
+        tracing_core::__verif::yield_point(81);
         try_lock!(self.inner.read(), else return Interest::sometimes()).callsite_enabled(metadata)
     }
 
     #[inline]
     fn enabled(&self, metadata: &Metadata<'_>, ctx: &subscribe::Context<'_, C>) -> bool {
+        #[cfg(tracing_verif)]
+        tracing_core::__verif::yield_point(81);
         try_lock!(self.inner.read(), else return false).enabled(metadata, ctx)
     }
 
@@ -229,6 +239,8 @@ where
 
     #[inline]
     fn max_level_hint(&self) -> Option<LevelFilter> {
+        #[cfg(tracing_verif)]
+        tracing_core::__verif::yield_point(81);
         try_lock!(self.inner.read(), else return None).max_level_hint()
     }
 }
@@ -281,12 +293,16 @@ impl<T> Handle<T> {
             kind: ErrorKind::CollectorGone,
         })?;
 
+        #[cfg(tracing_verif)]
+        tracing_core::__verif::yield_point(80);
         let mut lock = try_lock!(inner.write(), else return Err(Error::poisoned()));
         f(&mut *lock);
         // Release the lock before rebuilding the interest cache, as that
         // function will lock the new subscriber.
         drop(lock);
 
+        #[cfg(tracing_verif)]
+        tracing_core::__verif::yield_point(82);
         callsite::rebuild_interest_cache();
 
         // If the `log` crate compatibility feature is in use, set `log`'s max
